@@ -837,6 +837,8 @@ func c03(c *Ctx) (*report.Result, error) {
 	checkSendChanClosedOnExit(c, res, "O3.10")
 	res.RuleDoc["O3.11"] = "the watermark replay reaches a (re)registered target: SetupCallbacks installs both shard-change callbacks, each calls notifyReceiversOfNewShard when a shard was added, that notifies every receiver routing to the shard's cluster, and both NotifyNewTargetShard implementations call sendPendingWatermarkToShard - each link on every path (O8.10 is the first link, O1.6 what is replayed)"
 	checkReplayChain(c, res, "O3.11")
+	res.RuleDoc["O3.12"] = "the fan-out's target list is the requested cluster's: GetRemoteSendChansByCluster copies an entry exactly when its key's ClusterID equals the requested cluster id"
+	checkSendChansByClusterFilter(c, res, "O3.12")
 	checkNoSwallowedErrors(c, res, "O3.8", []string{"proxy/proxy_streams.go"})
 	res.RuleDoc["O3.9"] = "relay loops pass every message on: in every loop that takes messages from a stream or channel and forwards them, no path from the take to the next take avoids every stream Send / channel send / Deliver*ToShardOwner (a forwarding loop that runs zero times, the wrong-kind edges of a type assertion and a return that ends the stream are not bypasses; the ack aggregator sendAck is the reviewed exception)"
 	checkRelayLoops(c, res, "O3.9", []string{"proxy/proxy_streams.go", "proxy/intra_proxy_router.go"}, 5)
